@@ -12,7 +12,8 @@ import sys
 from harness import oracles
 
 ID = "C09"
-RULE = ("case = (edge list of a simple graph in arbitrary order/orientation, m0, tie-break ranks); mode 'all' walks "
+RULE = ("case = (edge list of a simple graph in arbitrary order/orientation, m0 (in 30 % of the cases passed as a numpy "
+        "integer scalar or a subclass of int), tie-break ranks); mode 'all' walks "
         "EVERY tie-break sequence of the real code (depth-first over the candidate counts it reports) and compares each "
         "leaf; mode 'hist' is a history of calls on one or two EECC objects (cliques queried, returned value damaged by "
         "the caller, graph extended, m0 changed, get_EECC, graph rebuilt on the same object, get_EECC again), every call "
@@ -193,7 +194,24 @@ def _eecc_call(net, ranks, nedges):
             "nodes_after": sorted(int(v) for v in net.G.nodes())}, cover
 
 
-def _run_once(edges, m0, ranks, labels=None):
+M0_TYPES = ["np.int64", "np.int32", "np.int16", "np.uint8", "np.intp", "intsub"]
+
+
+class _IntSub(int):
+    """a user-defined subclass of int"""
+
+
+def _m0_value(m0, typ):
+    """m0 in the number type the case asks for (case key "m0type"; default: a Python int)"""
+    if not typ or typ == "int":
+        return m0
+    if typ == "intsub":
+        return _IntSub(m0)
+    import numpy as np
+    return getattr(np, typ[3:])(m0)
+
+
+def _run_once(edges, m0, ranks, labels=None, m0type=None):
     """one fresh object; `labels` (strictly increasing ints, vertex i -> labels[i]) relabels the graph handed to the
     implementation order-preservingly (non-contiguous / large / negative labels); observations are mapped back"""
     import copy
@@ -204,7 +222,7 @@ def _run_once(edges, m0, ranks, labels=None):
     given = [tuple(fwd(v) for v in e) for e in edges]
     keep = copy.deepcopy(given)
     net.add_edges_from(given)
-    net.set_max_clique_size(m0)
+    net.set_max_clique_size(_m0_value(m0, m0type))
     # a second object with other contents and another bound stays alive while the first is read
     decoy = E.EECC()
     decoy.add_edges_from([(fwd(0) + 1000003, fwd(0) + 1000004), (fwd(0) + 1000004, fwd(0) + 1000005),
@@ -251,7 +269,7 @@ def _contents(steps):
     return out
 
 
-def _run_history(steps):
+def _run_history(steps, m0type=None):
     import gcmpy.covers.eecc as E
     objs, last, out = {}, {}, []
     for st, (es, iso, m0) in zip(steps, _contents(steps)):
@@ -263,7 +281,7 @@ def _run_history(steps):
             net.add_edges_from([tuple(e) for e in st[2]])
             out.append(None)
         elif st[0] == "m0":
-            net.set_max_clique_size(st[2])
+            net.set_max_clique_size(_m0_value(st[2], m0type))
             out.append(None)
         elif st[0] == "mc":
             with _patched(RankScript([], 10)):
@@ -312,11 +330,11 @@ def impl(case):
             out.append([f.numerator, f.denominator])
         return out
     if mode == "hist":
-        return _run_history(case["steps"])
+        return _run_history(case["steps"], case.get("m0type"))
     edges, m0 = case["edges"], case["m0"]
     labels = case.get("labels")
     if mode != "all":
-        return _run_once(edges, m0, case.get("ranks", []), labels)
+        return _run_once(edges, m0, case.get("ranks", []), labels, case.get("m0type"))
     # walk every tie-break sequence of the real code: each run follows `prefix` and then rank 0 to the end, which
     # is one leaf; its siblings at every depth beyond the prefix are pushed
     leaves = []
@@ -324,7 +342,7 @@ def impl(case):
     cap = case.get("cap", LEAF_CAP)
     while stack and len(leaves) < cap:
         prefix = stack.pop()
-        obs = _run_once(edges, m0, prefix, labels)
+        obs = _run_once(edges, m0, prefix, labels, case.get("m0type"))
         counts = obs["counts"]
         full = prefix + [0] * (len(counts) - len(prefix))
         leaves.append([full, obs])
@@ -716,6 +734,10 @@ def corpus():
         ["add", 1, [[4, 5], [6, 7], [4, 6]]], ["lim", 1], ["eecc", 1, []]]})
     out += [{"edges": [[0, 1]], "m0": 1, "ranks": []}, {"edges": [[0, 1], [1, 2]], "m0": 0, "ranks": []},
             {"edges": [], "m0": 2, "ranks": []}, {"edges": [], "m0": 0, "ranks": []}]
+    # m0 held in another integer type (numpy scalars, a subclass of int)
+    for i, t in enumerate(M0_TYPES):
+        out.append(dict(_case(_kn([0, 1, 2, 3, 4]) + _kn([2, 3, 4, 5, 6]), 2 + i % 4, [1, 2, 0, 3, 1, 0, 2]), m0type=t))
+        out.append(dict(_case(TEST_FIXTURE, 2 + (i + 1) % 3, mode="all", cap=20), m0type=t))
     return out
 
 
@@ -778,6 +800,16 @@ def _small_exhaustive(pairs, m0s):
 
 
 def generate(rng, tier):
+    """30 % of all cases (histories and the malformed stream included) pass m0 in another integer type"""
+    import random
+    trng = random.Random(rng.getrandbits(64))
+    for c in _generate0(rng, tier):
+        if c.get("mode") != "float" and trng.random() < 0.3:
+            c["m0type"] = trng.choice(M0_TYPES)
+        yield c
+
+
+def _generate0(rng, tier):
     yield {"edges": [], "m0": 2, "mode": "float"}
     # 1. all graphs on <= 5 labelled vertices x m0 x every tie-break sequence (quick: a seeded sample)
     frac = 0.25 if tier == "quick" else 1.0
@@ -821,6 +853,17 @@ def generate(rng, tier):
 
 
 def shrink(case):
+    """smaller cases; the number type of m0 is kept (and dropped as a separate step)"""
+    t = case.get("m0type")
+    for c in _shrink0(case):
+        if t:
+            c["m0type"] = t
+        yield c
+    if t:
+        yield {k: v for k, v in case.items() if k != "m0type"}
+
+
+def _shrink0(case):
     mode = case.get("mode")
     if mode == "float":
         return
